@@ -64,6 +64,9 @@ pub struct Scripted {
     pub pos: usize,
     pub ctr: u64,
     pub draws: usize,
+    /// continuation after the script: false = splitmix64 of a counter, true = the plain counter
+    /// itself (an adversarially monotone stream; `ctr` is its start value)
+    pub plain_counter: bool,
 }
 impl RngCore for Scripted {
     fn next_u32(&mut self) -> u32 {
@@ -74,6 +77,10 @@ impl RngCore for Scripted {
         if self.pos < self.script.len() {
             let v = self.script[self.pos];
             self.pos += 1;
+            v
+        } else if self.plain_counter {
+            let v = self.ctr;
+            self.ctr = self.ctr.wrapping_add(1);
             v
         } else {
             // splitmix64 on a counter: deterministic, well spread
@@ -96,10 +103,12 @@ impl RngCore for Scripted {
     }
 }
 
+/// a script [COUNTER_TAG, start] selects the plain-counter environment starting at `start`
+pub const COUNTER_TAG: u64 = 0xC0_47E2_C0_47E2_C0_47;
 pub const SAMPLERS: [&str; 4] = ["Standard.sample::<Element>", "Element::rand (UniformRand)", "Standard.sample::<AffinePoint>", "AffinePoint::rand (UniformRand)"];
 
 pub fn eval_sampler(dc: &Decaf, which: usize, script: &[u64]) -> Outcome {
-    let mut rng = Scripted { script: script.to_vec(), pos: 0, ctr: 0x1234, draws: 0 };
+    let mut rng = if script.len() == 2 && script[0] == COUNTER_TAG { Scripted { script: vec![], pos: 0, ctr: script[1], draws: 0, plain_counter: true } } else { Scripted { script: script.to_vec(), pos: 0, ctr: 0x1234, draws: 0, plain_counter: false } };
     let (x, y): (BigUint, BigUint) = match which {
         0 | 1 => {
             let e: Element = if which == 0 { Standard.sample(&mut rng) } else { Element::rand(&mut rng) };
@@ -260,6 +269,15 @@ pub fn run(ctx: &Arc<Ctx>) {
         }
         scripts.extend(next.iter().cloned());
         layer = next;
+    }
+    // plain-counter environments: monotone streams started just below word / half-word boundaries
+    // (long runs in which a fixed bit of every draw is set, then a carry)
+    // (only boundaries that are multiples of 2^32: the adverse run ends after `back` draws, so the
+    // unchanged rejection sampler terminates under every one of these environments)
+    for base in [0u64, 1u64 << 32, 1u64 << 63, 0x0123_4567_0000_0000u64 + (1u64 << 32), 0xFFFF_FFFF_0000_0000u64] {
+        for back in [0u64, 1, 0x100, 0xF00, 0x1000, 0x4000] {
+            scripts.push(vec![COUNTER_TAG, base.wrapping_sub(back)]);
+        }
     }
     let ns = scripts.len();
     run_cases(
